@@ -2,6 +2,8 @@
   C13 — a type is generic exactly when opaque data is reachable from it.
 -/
 import Fx.Lemmas.Generic
+import Fx.Emit
+import Fx.OutputOk
 namespace Fx.C13
 open Fx
 
@@ -59,5 +61,162 @@ theorem C13_terminates (gs : List GItem) :
 example : Reach [⟨"a", false, ["b"]⟩, ⟨"b", false, ["c"]⟩, ⟨"c", true, []⟩] "a" :=
   .ref (it := ⟨"a", false, ["b"]⟩) (by simp) (by simp)
     (.ref (it := ⟨"b", false, ["c"]⟩) (by simp) (by simp) (.own (it := ⟨"c", true, []⟩) (by simp) rfl))
+
+/-! ### the parameter is declared exactly where it is used -/
+
+theorem eq_of_name_eq : ∀ (gs : List GItem), (gnames gs).Nodup → ∀ a ∈ gs, ∀ b ∈ gs, a.name = b.name → a = b := by
+  intro gs
+  induction gs with
+  | nil => intro _ a ha; cases ha
+  | cons x xs ih =>
+    intro hnd a ha b hb hab
+    simp only [gnames, List.map_cons, List.nodup_cons] at hnd
+    obtain ⟨hx, hxs⟩ := hnd
+    rcases List.mem_cons.mp ha with rfl | ha'
+    · rcases List.mem_cons.mp hb with rfl | hb'
+      · rfl
+      · exact absurd (List.mem_map.mpr ⟨b, hb', hab.symm⟩) hx
+    · rcases List.mem_cons.mp hb with rfl | hb'
+      · exact absurd (List.mem_map.mpr ⟨a, ha', hab⟩) hx
+      · exact ih hxs a ha' b hb' hab
+
+/-- a declared name is in the generic index iff its own declaration "hits": it holds an opaque itself or refers to a name
+    that is in the index (the index is exactly the least fixpoint, read one step at a time) -/
+theorem C13_generic_iff_hit (gs : List GItem) (hnd : (gnames gs).Nodup) (it : GItem) (hm : it ∈ gs) :
+    it.name ∈ genericIndexOf gs ↔ it.hit (genericIndexOf gs) = true := by
+  constructor
+  · intro h
+    have hr := genericIndexOf_sound gs _ h
+    generalize hn : it.name = n at hr
+    cases hr with
+    | @own it' hm' ho =>
+      have : it' = it := eq_of_name_eq gs hnd it' hm' it hm hn.symm
+      subst this
+      simp [GItem.hit, ho]
+    | @ref it' r hm' hr' hreach =>
+      have : it' = it := eq_of_name_eq gs hnd it' hm' it hm hn.symm
+      subst this
+      have hin := genericIndexOf_complete gs hreach
+      simp only [GItem.hit, Bool.or_eq_true, List.any_eq_true]
+      exact Or.inr ⟨r, hr', by simpa using hin⟩
+  · intro h
+    exact genericIndexOf_closed gs it hm h
+
+/-- does a declarator mention the byte container: an `opaque`, or a name that carries the parameter -/
+def mentionsT (idx : List String) (t : ArrayType) : Bool :=
+  t.unwrapArray.isOpaque || (match t.unwrapArray with | .ident i => idx.contains i | _ => false)
+
+theorem any_or_any {α} (p q : α → Bool) : ∀ (l : List α), (l.any p || l.any q) = l.any (fun x => p x || q x) := by
+  intro l
+  induction l with
+  | nil => rfl
+  | cons x xs ih =>
+    simp only [List.any_cons, ← ih]
+    cases p x <;> cases q x <;> cases xs.any p <;> cases xs.any q <;> rfl
+
+theorem refs_any (idx : List String) : ∀ (ts : List ArrayType),
+    (refsOf ts).any (fun r => idx.contains r) = ts.any (fun t => match t.unwrapArray with | .ident i => idx.contains i | _ => false) := by
+  intro ts
+  induction ts with
+  | nil => rfl
+  | cons t rest ih =>
+    simp only [refsOf, List.filterMap_cons, List.any_cons] at ih ⊢
+    cases hu : t.unwrapArray <;> simp only [List.any_cons] <;> rw [ih] <;> simp
+
+theorem hit_eq_any (name : String) (idx : List String) (ts : List ArrayType) :
+    (GItem.mk name (ts.any (·.unwrapArray.isOpaque)) (refsOf ts)).hit idx = ts.any (mentionsT idx) := by
+  simp only [GItem.hit, refs_any, any_or_any]
+  rfl
+
+theorem payloadTy_usesT (a : Ast) (t : ArrayType) : (payloadTy a t).usesT = mentionsT a.generics t := by
+  unfold payloadTy mentionsT
+  cases hu : t.unwrapArray <;> cases t <;> simp [TyExpr.usesT, BasicType.isOpaque, Ast.isGeneric] <;>
+    (split <;> simp_all [TyExpr.usesT])
+
+theorem armTy_usesT (a : Ast) (t : ArrayType) : (armTy a t).usesT = mentionsT a.generics t := by
+  unfold armTy
+  cases hu : t.unwrapArray with
+  | ident i =>
+    simp only
+    by_cases hg : a.isGeneric i = true
+    · simp [hg, TyExpr.usesT, mentionsT, hu, BasicType.isOpaque]; simpa [Ast.isGeneric] using hg
+    · simp only [hg, Bool.false_eq_true, if_false]; exact payloadTy_usesT a t
+  | «opaque» => simp [TyExpr.usesT, mentionsT, hu, BasicType.isOpaque]
+  | string => simp [TyExpr.usesT, mentionsT, hu, BasicType.isOpaque]
+  | _ => simp only []; exact payloadTy_usesT a t
+
+/-- **C13, emitted types.**  For every list of declarations with distinct type names: a struct carries the byte-container
+    parameter (it is in the generic index, so its type, both decoders and its size impl are printed with `<T>` / `<Bytes>`,
+    `C07_impl_params_consistent`) if and only if one of the field types the emitter prints for it mentions `T` — the parameter
+    is declared exactly where it is used, which is what rustc demands (E0392 / E0107). -/
+theorem C13_struct_param_iff_used (items : List Item) (a : Ast) (ha : Ast.ofItems items = .ok a)
+    (hnd : (gnames (items.filterMap gitemOf)).Nodup) (s : Struct) (hs : Item.struct s ∈ items) :
+    a.isGeneric s.name = (s.fields.any fun f =>
+      (if f.isOptional then TyExpr.optBox (payloadTy a f.fieldValue) else payloadTy a f.fieldValue).usesT) := by
+  have hgen : a.generics = genericIndexOf (items.filterMap gitemOf) := by
+    unfold Ast.ofItems at ha
+    cases hc : ConstantIndex.new items with
+    | panicAt f m => simp [hc] at ha
+    | ok cs => simp only [hc, Out.bind_ok] at ha; cases ha; rfl
+  have hmem : (GItem.mk s.name (s.innerTypes.any (·.unwrapArray.isOpaque)) (refsOf s.innerTypes)) ∈ items.filterMap gitemOf :=
+    List.mem_filterMap.mpr ⟨_, hs, rfl⟩
+  have hiff := C13_generic_iff_hit _ hnd _ hmem
+  rw [hit_eq_any, ← hgen] at hiff
+  have hfields : (s.fields.any fun f =>
+      (if f.isOptional then TyExpr.optBox (payloadTy a f.fieldValue) else payloadTy a f.fieldValue).usesT) =
+      s.innerTypes.any (mentionsT a.generics) := by
+    simp only [Struct.innerTypes, List.any_map]
+    congr 1
+    funext f
+    by_cases ho : f.isOptional = true
+    · simp [ho, TyExpr.usesT, payloadTy_usesT]
+    · simp [ho, payloadTy_usesT]
+  rw [hfields]
+  simp only [Ast.isGeneric]
+  rw [Bool.eq_iff_iff]
+  simpa using hiff
+
+/-- the same for unions: the parameter iff some arm's payload type (default arm included) mentions `T` -/
+theorem C13_union_param_iff_used (items : List Item) (a : Ast) (ha : Ast.ofItems items = .ok a)
+    (hnd : (gnames (items.filterMap gitemOf)).Nodup) (u : Union) (hu : Item.union u ∈ items) :
+    a.isGeneric u.name = ((u.cases ++ u.default.toList).any fun c => (armTy a c.fieldValue).usesT) := by
+  have hgen : a.generics = genericIndexOf (items.filterMap gitemOf) := by
+    unfold Ast.ofItems at ha
+    cases hc : ConstantIndex.new items with
+    | panicAt f m => simp [hc] at ha
+    | ok cs => simp only [hc, Out.bind_ok] at ha; cases ha; rfl
+  have hmem : (GItem.mk u.name (u.innerTypes.any (·.unwrapArray.isOpaque)) (refsOf u.innerTypes)) ∈ items.filterMap gitemOf :=
+    List.mem_filterMap.mpr ⟨_, hu, rfl⟩
+  have hiff := C13_generic_iff_hit _ hnd _ hmem
+  rw [hit_eq_any, ← hgen] at hiff
+  have hfields : ((u.cases ++ u.default.toList).any fun c => (armTy a c.fieldValue).usesT) =
+      u.innerTypes.any (mentionsT a.generics) := by
+    simp only [Union.innerTypes, List.any_map]
+    congr 1
+    funext c
+    simp [armTy_usesT]
+  rw [hfields]
+  simp only [Ast.isGeneric]
+  rw [Bool.eq_iff_iff]
+  simpa using hiff
+
+/-- typedefs: the newtype is printed with the parameter (`emitTypeDecl`: target opaque, or target generic) exactly when its
+    name is in the index that the impl headers consult -/
+theorem C13_typedef_param_consistent (items : List Item) (a : Ast) (ha : Ast.ofItems items = .ok a)
+    (hnd : (gnames (items.filterMap gitemOf)).Nodup) (t : Typedef) (ht : Item.typedef t ∈ items) :
+    a.isGeneric t.alias.unwrapArray.asStr = (t.target.isOpaque || a.isGeneric t.target.asStr) := by
+  have hgen : a.generics = genericIndexOf (items.filterMap gitemOf) := by
+    unfold Ast.ofItems at ha
+    cases hc : ConstantIndex.new items with
+    | panicAt f m => simp [hc] at ha
+    | ok cs => simp only [hc, Out.bind_ok] at ha; cases ha; rfl
+  have hmem : (GItem.mk t.alias.unwrapArray.asStr t.target.isOpaque [t.target.asStr]) ∈ items.filterMap gitemOf :=
+    List.mem_filterMap.mpr ⟨_, ht, rfl⟩
+  have hiff := C13_generic_iff_hit _ hnd _ hmem
+  rw [← hgen] at hiff
+  simp only [GItem.hit, List.any_cons, List.any_nil, Bool.or_false] at hiff
+  simp only [Ast.isGeneric]
+  rw [Bool.eq_iff_iff]
+  simpa using hiff
 
 end Fx.C13
